@@ -90,6 +90,14 @@ Proof. exact fr_add_spec. Qed.
 Theorem C10_fiat_fp_add : forall a b, limbs_ok 12 a -> limbs_ok 12 b -> ev a < p -> ev b < p ->
   limbs_ok 12 (fp_add a b) /\ ev (fp_add a b) = (ev a + ev b) mod p.
 Proof. exact fp_add_spec. Qed.
+(* Multi-limb subtraction (Fq, Fr): 8 subtract-with-borrow, the all-ones / zero mask chosen by the final borrow, 8 add-with-carry of the
+   masked modulus limbs — (a - b) mod m for all in-range limb values. *)
+Theorem C10_fiat_fq_sub : forall a b, limbs_ok 8 a -> limbs_ok 8 b -> ev a < q -> ev b < q ->
+  limbs_ok 8 (fq_sub a b) /\ ev (fq_sub a b) = (ev a - ev b) mod q.
+Proof. exact fq_sub_spec. Qed.
+Theorem C10_fiat_fr_sub : forall a b, limbs_ok 8 a -> limbs_ok 8 b -> ev a < r -> ev b < r ->
+  limbs_ok 8 (fr_sub a b) /\ ev (fr_sub a b) = (ev a - ev b) mod r.
+Proof. exact fr_sub_spec. Qed.
 (* the hypotheses are satisfiable and the wrap-around case is exercised: (q - 1) + 2 = 1 *)
 Example C10_fiat_fq_add_run :
   let a := [0; 168919040; 3489660929; 1504343806; 1547153409; 1622428958; 2586617174; 313222494] in
